@@ -346,6 +346,7 @@ static void rls_ls_run(Json& js, vh::Rng& rng) {
     const int K = (int)rng.range(1, 3 * len + 4);
     const int silent_head = rng.range(0, 2) == 0 ? (int)rng.range(1, len + 2) : 0;
     const int gap_at = rng.range(0, 2) == 0 ? (int)rng.range(1, std::max(1, K - 1)) : -1;
+    const int quiet_d = rng.range(0, 2) == 0 ? (int)rng.range(1, len + 3) : 0;
     std::vector<double> xs, ds;
     int done = 0;
     while (done < K) {
@@ -355,6 +356,10 @@ static void rls_ls_run(Json& js, vh::Rng& rng) {
             x[i] = rng.gauss(), d[i] = rng.gauss();
             if (silent_head > 0 && done + i < silent_head) {
                 x[i] = 0;   // leading silence: all-zero regressors must still be forgotten with lambda
+            }
+            if (quiet_d > 0 && done + i < quiet_d) {
+                d[i] = 0;   // the desired signal starts late (bulk delay): the a-priori error is exactly 0 while w = 0, the
+                            // samples still enter the normal equations
             }
             if (gap_at >= 0 && done + i >= gap_at && done + i < gap_at + len + 1) {
                 x[i] = 0;   // a silent gap at least as long as the filter
